@@ -208,7 +208,7 @@ def half_case(rng):
     return ops
 
 
-def burst_case(rng, big=True):
+def burst_case(rng, big=True, allow_close=True):
     """The C08-d2 shape: more outbound open requests than yamux lets wait for acknowledgement (256), to a remote that
     takes the yamux streams and never answers; `substream_open_timeout` is small. Every request — also the ones whose
     yamux stream is never even opened — must be answered (failure with its id) once the timeout has passed, and the
@@ -236,6 +236,15 @@ def burst_case(rng, big=True):
             if rng.random() < 0.4:
                 ops.append("run")
         ops.append("run")
+    if big:
+        # while the last requests wait for the ACK backlog to shrink the connection must go on working: an inbound
+        # substream is accepted, a remote close is noticed (the pending requests then end with the connection)
+        pre = rng.choice(["none", "none", "inbound", "inbound", "close" if allow_close else "inbound"])
+        if pre == "inbound":
+            ops += [f"remote_open {rng.randrange(n)} full", "run"]
+        elif pre == "close":
+            ops += [rng.choice(["remote_close", "remote_goaway"]), "run", "run"]
+            return ops
     ops.append(f"sleep {sot + TIMEOUT_MARGIN + 100}")
     # afterwards the connection still works
     tail = rng.choice(["inbound", "open_again", "close", "idle"])
@@ -463,7 +472,8 @@ def gen_cases(rng, tier, focus=None):
         n_burst, n_stall = {"quick": 4, "thorough": 32, "search": 2}[tier], {"quick": 6, "thorough": 80, "search": 3}[tier]
     if focus == "C07":
         n_fb //= 4
-    cases += [burst_case(rng) for _ in range(n_burst)]
+    # (the first one always waits past the timeout)
+    cases += [burst_case(rng, allow_close=k > 0) for k in range(n_burst)]
     cases += [burst_case(rng, big=False) for _ in range(n_stall)]
     cases += [fallback_case(rng) for _ in range(n_fb)]
     if focus != "C09":
